@@ -448,7 +448,6 @@ def run_attacks():
             .replace("__CANARY_DIR__", canary_dir)
         ctx.add_page("Module:atk " + name.replace("_", "-"), 828, "local e = {} function e.f(frame) " + code + " end return e", model="Scribunto")
         ctx.db_conn.commit()
-        type(ctx).get_page.cache_clear()
         before = sorted((p.title, p.body) for p in ctx.get_all_pages() if not p.title.startswith("Module:atk"))
         ctx.start_page("Tt")
         try:
